@@ -129,6 +129,9 @@ class FakeSession:
     def post(self, url, **kw):      # bitstamp websockets token
         return Resp({"token": "tok", "user_id": 77})
 
+    def get(self, url, **kw):
+        return Resp({})
+
 
 class RecSource(core_ws.ChannelEventSource):
     def __init__(self, producer, name):
@@ -319,8 +322,9 @@ def scenario(ctx, client="binance", steps1=2, steps2=1):
     suffix = "-77" if client == "bitstamp_private" else ""
     for conn in range(len(connects)):
         subs = subscribed_streams(conn)
-        quiescent = any(r[0] == conn and r[1] == "quiescent" for r in log)
-        if not quiescent or ended(conn) is not None:
+        qt = [r[2] for r in log if r[0] == conn and r[1] == "quiescent"]
+        # (a connection that went quiet less than half a second before the horizon may not have subscribed yet)
+        if not qt or ended(conn) is not None or qt[0] + 0.5 > out["end"]:
             continue
         # every channel registered before this connection went quiet is subscribed on THIS connection
         if client == "binance":
@@ -351,6 +355,7 @@ def scenario(ctx, client="binance", steps1=2, steps2=1):
             if not exp:
                 continue
             t_exp = exp[0][3]
+            i_exp = log.index(exp[0])
             end_t = ended(conn)
             if end_t is not None and end_t < t_exp + 1.0:
                 continue
@@ -359,7 +364,8 @@ def scenario(ctx, client="binance", steps1=2, steps2=1):
             if not any(s == exp[0][2][1]["stream"] and t <= t_exp for s, t in subs):
                 continue
             ctx.cover("a listen key expired on a live connection")
-            again = [s for s, t in subs if s.startswith("LK") and t > t_exp and t <= t_exp + 1.0]
+            again = [r for r in log[i_exp + 1:] if r[0] == conn and r[1] == "sent" and r[2].get("method") == "SUBSCRIBE"
+                     and any(str(p_).startswith("LK") for p_ in r[2]["params"]) and r[3] <= t_exp + 1.0]
             ctx.prove(bool(again), "C18 a channel flagged for re-subscription (expired listen key) is re-subscribed on "
                                    "the live connection without waiting for a reconnect", info=(conn, subs, t_exp))
     # routing
@@ -367,7 +373,7 @@ def scenario(ctx, client="binance", steps1=2, steps2=1):
     for rec in log:
         if rec[1] == "delivered" and rec[2][0] == "frame":
             m = rec[2][1]
-            subs_before = [s for s, t in subscribed_streams(rec[0]) if t <= rec[3]]
+            subs_before = [s for c in range(len(connects)) for s, t in subscribed_streams(c) if t <= rec[3]]
             if client == "binance":
                 if m.get("stream") == "btcusdt@trade":
                     delivered["A"] += 1
